@@ -66,7 +66,7 @@ func (ct *Ciphertext) Randomize(pk *PublicKey, nonce *saferith.Nat) *saferith.Na
 
 // WriteTo implements io.WriterTo and should be used within the hash.Hash function.
 func (ct *Ciphertext) WriteTo(w io.Writer) (int64, error) {
-	if ct == nil {
+	if ct == nil || ct.c == nil {
 		return 0, io.ErrUnexpectedEOF
 	}
 	buf := make([]byte, params.BytesCiphertext)
